@@ -9,7 +9,7 @@ T = "Trusted: the reference models and parser in harness/ (self-tested on the RF
 # property id -> (technique, level text, level note, design ref)
 CHECKS = {
  "C01": ("differential runtime monitor: real DecodePatch+Apply vs independent RFC 6902 reference evaluator on seeded state-directed operation sequences and an exhaustive single-operation family, under the pool sanitizer",
-         "Exploration. Success/failure and value (members unordered, numbers by literal, strings by code point) of the real library must agree with an independent reference evaluator inside the property's stated domain. Bounded-exhaustive: all single operations on 12 fixed documents x their pointer universe (resolvable + near-miss) x both negative-index settings (~65k). Seeded: sequences of 1-12 (thorough: 40) operations generated against the state the reference has reached; families for copy isolation, null-then-test, move = remove+add (library against itself), root replacement followed by operations.",
+         "Exploration. Success/failure and value (members unordered, numbers by literal, strings by code point) of the real library must agree with an independent reference evaluator inside the property's stated domain. Bounded-exhaustive: all single operations on 12 fixed documents x their pointer universe (resolvable + near-miss) x both negative-index settings (~65k). Seeded: sequences of 1-12 (thorough: 40) operations generated against the state the reference has reached; families for copy isolation, relocation chains (copied/moved/added values copied and moved again into and out of each other, all applicable), null-then-test, move = remove+add (library against itself), root replacement followed by operations; member names needing ~0/~1 include one spelled ~01 as a token.",
          T, "DESIGN.md section 6 C01"),
  "C02": ("differential runtime monitor: real MergePatch vs the RFC 7396 pseudo-code implemented independently, exhaustive over all pairs of a value universe plus seeded derived patches",
          "Exploration. MergePatch output (unordered, numbers by literal) must equal RFC 7396's MergePatch for non-null documents; non-object patches must come back verbatim. Exhaustive: all ordered pairs of a 60-value universe; seeded: patches derived from the document (delete/replace/merge/type change, nulls at every depth, arrays holding objects with null members) and independent pairs.",
@@ -18,7 +18,7 @@ CHECKS = {
          "Exploration. For accepted pairs the patch must be {} iff A equals B, mention only differing members, carry removed members as null and B's number literals; when B has no null member, applying it (reference and library) must give B. Rejection clause over all ordered pairs of root kinds. Exhaustive over the object universe and root-kind pairs; seeded edited objects (small deep diffs), independent objects, arrays of objects.",
          T, "DESIGN.md section 6 C03"),
  "C04": ("crash/panic monitor: recover() around every exported entry point of both packages inside isolated worker processes with a crash journal and per-case watchdogs, on hostile, mutated, enumerated and deeply nested inputs",
-         "Exploration. Every exported entry point of v5 and of the staged legacy package is called on awkward valid inputs, byte mutations, all <=3-token strings for each []byte parameter (quick: all <=2-token strings plus a stride of the 3-token ones), the full option matrix (256 combinations), nesting depths up to 100000 and overflow-sized tokens. A panic is caught by recover(), a fatal error or kill is attributed to the journalled case by the driver, a case exceeding the watchdog is re-run alone with 5x budget (only a second time-out is a hang).",
+         "Exploration. Every exported entry point of v5 and of the staged legacy package is called on awkward valid inputs, byte mutations, all <=3-token strings for each []byte parameter (quick: all <=2-token strings plus a stride of the 3-token ones), the full option matrix (256 combinations), nesting depths up to 100000, overflow-sized tokens and applicable relocation chains (a node shared between two locations becomes a cycle and a fatal stack overflow). A panic is caught by recover(), a fatal error or kill is attributed to the journalled case by the driver, a case exceeding the watchdog is re-run alone with 5x budget (only a second time-out is a hang).",
          "Trusted: Go runtime's recover and process exit status. 'Never hangs' is decided in the bounded form stated in DESIGN.md section 9. Inputs beyond the generator bounds are not covered.", "DESIGN.md section 6 C04"),
  "C05": ("ordered, literal-exact differential monitor: outputs parsed by an order-preserving parser and compared with the reference's order model; invariant hook on the live tree",
          "Exploration. Apply outputs must match the reference member by member, in order, number literals as text; the empty patch must reproduce order and literals; MergePatch must keep survivors in document order ahead of new members and untouched members identical. The ApplyEnd hook walks the live tree (key list vs member map agreement) at the end of every call.",
@@ -42,7 +42,7 @@ CHECKS = {
          "Exploration. Exhaustive: 6 operations x each member x 19 mutations + odd element kinds, alone and planted at 9 positions (thorough: all pairs of mutants), root kinds; seeded valid and byte-mutated patches. Accept/reject must match the rule in the property; accepted patches: Kind/Path/From/ValueInterface must return the decoded members.",
          T, "DESIGN.md section 6 C11"),
  "C12": ("hook monitor: CopyAccounted(size,total) events compared with reference sizes at every copy (decides all limits at once) + limit placed at every prefix total -1/+0/+1; legacy package at the call boundary",
-         "Exploration. Encoder-spelled documents, copy-heavy sequences; v5 per-call limit and package default, legacy package default; error must be *AccumulatedCopySizeError exactly when the reference total exceeds a positive limit; limit 0 disables; other operations never produce accounting events.",
+         "Exploration. Copy-heavy sequences on encoder-spelled documents (sizes from the reference spelling) and on documents in arbitrary spelling with whitespace (sizes measured on the library own output: the patch is applied up to each copy and the text found at the destination is measured); v5 per-call limit, package default, per-call limit against a different package default (0 included), legacy package default; error must be *AccumulatedCopySizeError exactly when the total exceeds a positive limit; limit 0 disables; other operations never produce accounting events.",
          T, "DESIGN.md section 6 C12"),
  "C13": ("metamorphic monitor: Apply(option on, P) vs Apply(option off, P minus the removes the reference says address absent targets), plus the reference itself",
          "Exploration. Exhaustive single operations and seeded remove-heavy sequences; document bytes or error class must match between the two runs of the library, and the reference; the failing operation must be the same one (OpDone hook).",
@@ -57,7 +57,7 @@ CHECKS = {
          "Exploration. Exhaustive: all byte strings <=4 (thorough 5) over 20 symbols, all <=3 (thorough 4) token sequences over 42 tokens, nesting 9999/10000/10001; seeded generated and mutated texts; 11 entry-point gates on the token set and generated texts.",
          T + " Ill-formed UTF-8 compared with encoding/json only.", "DESIGN.md section 6 C16"),
  "C17": ("differential monitor: embedded codec vs this toolchain's encoding/json and an independent parser, on texts, Go values and run-time generated struct types, in one long history per worker under the pool sanitizer",
-         "Exploration. Round trip and key lists vs the ordered parser; Compact/Indent/HTMLEscape bytes; Marshal/MarshalIndent/MarshalEscaped/Encoder bytes; Unmarshal/Decoder into reflect.StructOf types with tags; Decoder streams (Decode/Token/More/Buffered/InputOffset); values, bytes, error presence and SyntaxError offsets must agree.",
+         "Exploration. Round trip through each of the four decoding entry points and both escape settings, and key lists, vs the ordered parser; every decimal exponent -35..35 of float32/float64 in plain, pointer, interface, map, struct and quoted (,string) positions; Compact/Indent/HTMLEscape bytes; Marshal/MarshalIndent/MarshalEscaped/Encoder bytes; Unmarshal/Decoder into reflect.StructOf types with tags; Decoder streams (Decode/Token/More/Buffered/InputOffset); values, bytes, error presence and SyntaxError offsets must agree.",
          "Trusted: go1.23 encoding/json as ground truth; normalised: U+0008/U+000C spelling and the Number type.", "DESIGN.md section 6 C17"),
  "C18": ("differential runtime monitor: legacy package (staged from /repo root at check time) vs the reference evaluator in the v4 dialect",
          "Exploration. Exhaustive single operations and seeded sequences; all-applicable sequences must give the RFC result up to member order; failed test / remove-move of absent location / index out of range must give an error and no document.",
@@ -66,7 +66,7 @@ CHECKS = {
          "Exploration. MergePatch vs RFC 7396 (object/array patches), CreateMergePatch minimality and round trip (float64-printable numbers), MergeMergePatches composition law, Equal vs structural equality (no escapes).",
          T, "DESIGN.md section 6 C19"),
  "C20": ("whole-program monitor: the built json-patch binaries run as child processes, (exit status, stdout, stderr) compared with folding DecodePatch+Apply in-process; strace fault injection for unreadable files",
-         "Exploration. v5 and legacy binaries, 0-4 patch files of 7 kinds in generated, shuffled and repeated orders (valid patches generated against the evolving state so order matters), 1 MiB documents, EIO injected on the first read of a patch file.",
+         "Exploration. v5 and legacy binaries, 0-4 patch files of 7 kinds in generated, shuffled and repeated orders (valid patches generated against the evolving state so order matters), 1 MiB documents, patch files without operations combined with ill-formed / non-compact / scalar / empty stdin, percent signs in names and strings, EIO injected on the first read of a patch file.",
          "Trusted: the library in the harness process and in the binary are built from the same tree; strace -e inject.", "DESIGN.md section 6 C20"),
 }
 
